@@ -1,0 +1,30 @@
+//go:build verif
+
+package vecengine
+
+// Machine-checked contracts for /verif (read as text by the VC generator; no code).
+//
+// gBranchOf models the EventBranch table: the global branch ID recorded for an event.
+//@ ghost gBranchOf[hash.Event] int
+//@ funcfield Engine.crit
+//@   ensures true
+//@ // assumed of the persisted table (bytes round trip through idx.Validator.Bytes / BytesToValidator, proved under C32)
+//@ trusted func (*Engine).GetEventBranchID
+//@   requires vi != nil
+//@   ensures  result == gBranchOf[id]
+//@ trusted func (*Engine).SetEventBranchID
+//@   requires vi != nil
+//@   modifies gBranchOf[id]
+//@   ghost gBranchOf[id] = branchID
+//@
+//@ // representation invariant of the branches info for n validators: one creator and one last sequence per branch,
+//@ // the first n branches are the validators' own, every creator index is a validator index
+//@ spec biwf(bi *BranchesInfo, n int) bool = bi != nil && len(bi.BranchIDCreatorIdxs) == len(bi.BranchIDLastSeq) && len(bi.BranchIDCreatorIdxs) >= n && len(bi.BranchIDCreatorIdxs) <= 536870911 && len(bi.BranchIDByCreators) == n &&
+//@   forall(br, 0, len(bi.BranchIDCreatorIdxs), bi.BranchIDCreatorIdxs[br] < n)
+//@
+//@ func (*Engine).AtLeastOneFork
+//@   requires vi != nil && vi.bi != nil && valid(vi.validators) && len(vi.bi.BranchIDCreatorIdxs) <= 4294967295
+//@   ensures  result == (len(vi.bi.BranchIDCreatorIdxs) > len(vi.validators.values))
+//@ func (*Engine).BranchesInfo
+//@   requires vi != nil
+//@   ensures  result == vi.bi
